@@ -215,7 +215,7 @@ AccessPaths ==
     [path |-> "file_chunks_listed", modes |-> {"lazy"},   scaled |-> TRUE,  stream |-> "file"],   \* list(...) first, inspect later
     [path |-> "read_data_unscaled", modes |-> {"eager", "lazy"}, scaled |-> FALSE, stream |-> "none"],
     [path |-> "raw_data",    modes |-> {"eager"},         scaled |-> FALSE, stream |-> "none"] }
-Configs == [memmap : BOOLEAN, rawts : BOOLEAN, source : {"path", "stream"}]
+Configs == [memmap : BOOLEAN, rawts : BOOLEAN, source : {"path", "pathlib", "stream", "fileobj"}]
 
 \* behaviour used by the C03 GEN configuration: choose a shape, nothing else happens
 AccInit == Init
